@@ -183,8 +183,49 @@ pub mod io {
         fn shutdown(&mut self) -> Flush<'_, Self> where Self: Unpin {
             Flush { writer: self }
         }
+        /// one `poll_write` with the remaining bytes of the buffer, which is advanced by what was written (declaration: the interpreter models it)
+        fn write_buf<'a, B: bytes::Buf>(&'a mut self, src: &'a mut B) -> WriteBufFut<'a, Self, B> where Self: Unpin {
+            WriteBufFut { writer: self, buf: src, all: false }
+        }
+        /// `poll_write` until the buffer is empty
+        fn write_all_buf<'a, B: bytes::Buf>(&'a mut self, src: &'a mut B) -> WriteBufFut<'a, Self, B> where Self: Unpin {
+            WriteBufFut { writer: self, buf: src, all: true }
+        }
+        fn write_u8(&mut self, n: u8) -> WriteByte<'_, Self> where Self: Unpin {
+            WriteByte { writer: self, byte: [n], done: false }
+        }
     }
     impl<W: AsyncWrite + ?Sized> AsyncWriteExt for W {}
+
+    pub struct WriteBufFut<'a, W: ?Sized, B> { writer: &'a mut W, buf: &'a mut B, all: bool }
+    impl<W: AsyncWrite + Unpin + ?Sized, B: bytes::Buf> Future for WriteBufFut<'_, W, B> {
+        type Output = std::io::Result<usize>;
+        fn poll(self: Pin<&mut Self>, cx: &mut Context<'_>) -> Poll<Self::Output> {
+            let me = self.get_mut();
+            let mut total = 0;
+            loop {
+                if !me.buf.has_remaining() { return Poll::Ready(Ok(total)); }
+                match Pin::new(&mut *me.writer).poll_write(cx, me.buf.chunk()) {
+                    Poll::Ready(Ok(n)) => { me.buf.advance(n); total += n; if !me.all { return Poll::Ready(Ok(n)); } if n == 0 { return Poll::Ready(Err(std::io::ErrorKind::WriteZero.into())); } }
+                    Poll::Ready(Err(e)) => return Poll::Ready(Err(e)),
+                    Poll::Pending => return Poll::Pending,
+                }
+            }
+        }
+    }
+    pub struct WriteByte<'a, W: ?Sized> { writer: &'a mut W, byte: [u8; 1], done: bool }
+    impl<W: AsyncWrite + Unpin + ?Sized> Future for WriteByte<'_, W> {
+        type Output = std::io::Result<()>;
+        fn poll(self: Pin<&mut Self>, cx: &mut Context<'_>) -> Poll<Self::Output> {
+            let me = self.get_mut();
+            if me.done { return Poll::Ready(Ok(())); }
+            match Pin::new(&mut *me.writer).poll_write(cx, &me.byte) {
+                Poll::Ready(Ok(_)) => { me.done = true; Poll::Ready(Ok(())) }
+                Poll::Ready(Err(e)) => Poll::Ready(Err(e)),
+                Poll::Pending => Poll::Pending,
+            }
+        }
+    }
 }
 
 pub mod sync {
